@@ -122,14 +122,15 @@ def parse_arm(pat, cond, body, kinds):
     if guard is None: guard = f"(GCls {cls})" if cls else "GAny"
     stmts = split_statements(body)
     tail = stmts.pop()
-    slice_ = None; var = None; upds = []; from_k = None; pending_input = False
+    slice_ = None; var = None; rest_var = None; upds = []; from_k = None; pending_input = False
     for st in stmts:
-        m = re.fullmatch(r"let\((\w+),remaining\)=input\.split_at\((.*)\)", st)
+        # the names of the two local variables carry no meaning: (token text, rest of the input)
+        m = re.fullmatch(r"let\((\w+),(\w+)\)=input\.split_at\((.*)\)", st)
         if m:
             if slice_ is not None: raise ValueError("two slices")
-            var = m.group(1); slice_ = parse_split_arg(m.group(2)); pending_input = True; continue
-        if st == "input=remaining":
-            if not pending_input: raise ValueError("input = remaining without split_at")
+            if m.group(1) == m.group(2): raise ValueError("split_at binds one name twice")
+            var = m.group(1); rest_var = m.group(2); slice_ = parse_split_arg(m.group(3)); pending_input = True; continue
+        if pending_input and st == "input=" + rest_var:
             pending_input = False; continue
         m = re.fullmatch(r"input=&input\[(\d+)\.\.\]", st)
         if m:
@@ -213,9 +214,10 @@ def vcs_sites(vcsrs, notes):
     mm = need(r"subpath=Some\(m\.as_str\(\)\[(\d+)\.\.m\.as_str\(\)\.len\(\)-(\d+)\]\.to_string\(\)\)", "subpath slice")
     if mm: vals["sub_from"] = int(mm.group(1)); vals["sub_back"] = int(mm.group(2))
     need(r"s=Cow::Owned\(\[s\[\.\.m\.start\(\)\]\.to_string\(\),s\[m\.end\(\)\.\.\]\.to_string\(\)\]\.concat\(\)\)", "removal of the match")
-    mm = need(r'ifletSome\(index\)=s\.find\(("(?:\\.|[^"\\])*")\)\{let\(url,branch_str\)=s\.split_at\(index\);'
-              r"branch=Some\(branch_str\[(\d+)\.\.\]\.to_string\(\)\);repo_url=url\.to_string\(\);\}", "branch split")
-    if mm: vals["find_lit"] = str_lit(mm.group(1)); vals["branch_from"] = int(mm.group(2))
+    # (names of the locals carry no meaning)
+    mm = need(r'ifletSome\((?P<i>\w+)\)=s\.find\((?P<lit>"(?:\\.|[^"\\])*")\)\{let\((?P<u>\w+),(?P<b>\w+)\)=s\.split_at\((?P=i)\);'
+              r"branch=Some\((?P=b)\[(?P<k>\d+)\.\.\]\.to_string\(\)\);repo_url=(?P=u)\.to_string\(\);\}", "branch split")
+    if mm: vals["find_lit"] = str_lit(mm.group("lit")); vals["branch_from"] = int(mm.group("k"))
     need(r"letmuts:Cow<str>=s\.trim\(\)\.into\(\);", "trim")
     # no other slicing expression in the function
     others = re.findall(r"\[[^\[\]]*\.\.[^\[\]]*\]", body)
